@@ -200,7 +200,64 @@ def check_C04(p, stream, tk):
     return None
 
 
+def odd_frames_modes(p, stream, tk, ST, DS):
+    """Frames of a generic DataSource may be any objects -- here objects that compare equal to everything (None included)
+    and whose truth value is False: end of stream is `read() is None`, nothing else, in every delivery mode."""
+    class Fr:
+        __slots__ = ("v", "k")
+
+        def __init__(self, v, k):
+            self.v, self.k = v, k
+
+        def __eq__(self, other):
+            return True
+
+        def __ne__(self, other):
+            return False
+
+        def __hash__(self):
+            return 0
+
+        def __bool__(self):
+            return False
+
+    class Src(DS):
+        def __init__(self):
+            self.i, self.eos = 0, 0
+
+        def read(self):
+            if self.i >= len(stream):
+                self.eos += 1
+                return None
+            self.i += 1
+            return Fr(stream[self.i - 1].isupper(), self.i - 1)
+    exp = [([k for k in range(a, b + 1)], a, b) for _, a, b in tk]
+    out = {}
+    for how in ("list", "generator", "callback"):
+        t = ST(lambda f: f.v, p["m"], p["M"], p["s"], p.get("i0", 0), p.get("ims", 0), p.get("mode", 0))
+        src = Src()
+        try:
+            if how == "list":
+                r = t.tokenize(src)
+            elif how == "generator":
+                r = list(t.tokenize(src, generator=True))
+            else:
+                r = []
+                t.tokenize(src, callback=lambda d, a, b: r.append((d, a, b)))
+        except Exception as e:  # noqa
+            return "%s mode on frames that compare equal to everything raised %s" % (how, type(e).__name__)
+        got = [([f.k for f in d], a, b) for d, a, b in r]
+        if got != exp or src.eos != 1:
+            return "%s mode on frames that compare equal to everything (and are falsy): tokens %r, end of stream requested %d time(s); " \
+                   "expected %r and exactly one request" % (how, got[:3], src.eos, exp[:3])
+    return None
+
+
 def check_C08(p, stream, tk, ST=None, SDS=None, DS=None):
+    if ST is not None and DS is not None and len(stream) <= 8:
+        r0 = odd_frames_modes(p, stream, tk, ST, DS)
+        if r0:
+            return r0
     class Src(DS):
         def __init__(self, data):
             self.data, self.i, self.reads, self.eos = data, 0, 0, 0
@@ -292,6 +349,19 @@ def check_C20(p, stream, tk, ST=None, SDS=None, first=None, consume=None):
     if again != fresh:
         return "after an earlier run on %r (consumed=%r) the tokenizer gives %r, a fresh one %r" % (
             first, consume, again, fresh)
+    if consume is None:
+        # the earlier complete run delivered through a callback; every mode of the next run still equals a fresh tokenizer
+        t4 = mk(ST, p)
+        stray = []
+        t4.tokenize(SDS(first), callback=lambda *tok: stray.append(tok))
+        n0 = len(stray)
+        r_list = t4.tokenize(SDS(stream))
+        r_gen = list(t4.tokenize(SDS(stream), generator=True))
+        for nm, r in (("list", r_list), ("generator", r_gen)):
+            got = [(list(d), a, b) for d, a, b in (r or [])]
+            if got != fresh or len(stray) != n0:
+                return "after an earlier run on %r delivered through a callback, %s mode gives %r (the old callback received %d more token(s)), " \
+                       "a fresh tokenizer gives %r" % (first, nm, got, len(stray) - n0, fresh)
     return None
 
 
@@ -368,6 +438,28 @@ def evaluate(pid, p, stream, ST, SDS, DS, extra=None):
                 g = t.tokenize(SDS(stream), generator=True)
                 t.tokenize(SDS(extra["first"]))
                 tk = list(g)
+            elif extra.get("consume") is None:
+                # a complete earlier run in list mode: its result, still held by the caller, is not disturbed by the new run
+                # (in list, generator or callback mode), and the callback of an earlier run receives nothing of a later one
+                t = mk(ST, p)
+                first_tk = t.tokenize(SDS(extra["first"]))
+                snap = [(list(d), a, b) for d, a, b in first_tk]
+                stray = []
+                t.tokenize(SDS(extra["first"]), callback=lambda *tok: stray.append(tok))
+                n_stray = len(stray)
+                tk = t.tokenize(SDS(stream))
+                for how in ("generator", "callback"):
+                    if how == "generator":
+                        list(t.tokenize(SDS(stream), generator=True))
+                    else:
+                        t.tokenize(SDS(stream), callback=lambda *tok: None)
+                if [(list(d), a, b) for d, a, b in first_tk] != snap:
+                    return "the token list returned by an earlier run on %r changed while the tokenizer processed another stream: %r, was %r" % (
+                        extra["first"], [(("".join(map(str, d))), a, b) for d, a, b in first_tk][:3], [("".join(map(str, d)), a, b) for d, a, b in snap][:3])
+                if len(stray) != n_stray:
+                    return "the callback of an earlier run received %d token(s) of a later list-mode run" % (len(stray) - n_stray)
+                if tk is None or not isinstance(tk, list):
+                    return "list mode returned %r" % (tk,)
             else:
                 tk = reused(ST, SDS, p, extra["first"], extra.get("consume")).tokenize(SDS(stream))
         else:
